@@ -1062,6 +1062,31 @@ class Field(
                 index_variable=index_variable,
             )
 
+        def _n_profiles(count):
+            """The number of profiles stored for a feature.
+
+            This is the position of the feature's last profile that
+            has at least one element, plus one, so that empty
+            profiles which precede a non-empty one keep their
+            positions.
+
+            :Parameters:
+
+                count: sequence of `int`
+                    The element count of each of the feature's
+                    profiles.
+
+            :Returns:
+
+                `int`
+
+            """
+            n = len(count)
+            while n and not count[n - 1]:
+                n -= 1
+
+            return n
+
         def _compress_metadata(
             f, method, count, N, axes, Array_func, **kwargs
         ):
@@ -1115,7 +1140,7 @@ class Field(
                         ):
                             c_start = shape1 * i
                             c_end = c_start + shape1
-                            last = sum(n > 0 for n in count[c_start:c_end])
+                            last = _n_profiles(count[c_start:c_end])
 
                             end = start + last
                             compressed_data[start:end] = d[:last]
@@ -1156,7 +1181,7 @@ class Field(
                         ):
                             c_start = shape1 * i
                             c_end = c_start + shape1
-                            last = sum(n > 0 for n in count[c_start:c_end])
+                            last = _n_profiles(count[c_start:c_end])
 
                             end = start + last
                             compressed_data[start:end] = d[:last]
@@ -1297,7 +1322,7 @@ class Field(
             # --------------------------------------------------------
             count_variable = self._Count(
                 properties=count_properties,
-                data=self._Data([n for n in count if n]),
+                data=self._Data(count),
             )
 
             x = _RaggedContiguousArray(
@@ -1354,15 +1379,18 @@ class Field(
             # Ragged indexed contiguous
             # --------------------------------------------------------
             index = []
+            profile_count = []
             shape1 = f.data.shape[1]
             for i in range(f.data.shape[0]):
                 start = shape1 * i
                 end = start + shape1
-                index.extend([i] * sum(n > 0 for n in count[start:end]))
+                n_profiles = _n_profiles(count[start:end])
+                index.extend([i] * n_profiles)
+                profile_count.extend(count[start : start + n_profiles])
 
             count_variable = self._Count(
                 properties=count_properties,
-                data=self._Data([n for n in count if n]),
+                data=self._Data(profile_count),
             )
             index_variable = self._Index(
                 properties=index_properties, data=self._Data(index)
